@@ -328,7 +328,7 @@ def parse_array(x, **kwargs):
     if not isinstance(x, (list, tuple, set)):
         x = orjson.loads(x)
     if element_type is None:
-        return x
+        return list(x)
     parser = element_type.parse
     return [parser(v) for v in x]
 
